@@ -244,6 +244,10 @@ def caller_part(rep):
 
 
 def run(tier, seed, rep):
+    # histories of several requests on one object under the full fault alphabet (mc/sessions.py)
+    from .. import sessions
+    _ses = sessions.explore_sessions(tier, seed, {'C08'}, light=True)
+    rep.add_many([v for v in _ses.violations if v['prop'] == 'C08'])
     n_c = caller_part(rep)
     hc = list(hist_configs(tier))
     n_h = 0
@@ -287,7 +291,8 @@ def run(tier, seed, rep):
         for kk, v in oc.items():
             ocs[kk] = ocs.get(kk, 0) + v
         rep.add_many(out)
-    cov = dict(states=len(states), transitions=total, executions=total, traces_validated_against_impl=total,
+    cov = dict(session_histories=_ses.executions, session_states=len(_ses.states), session_choice_points=_ses.choice_points,
+               states=len(states), transitions=total, executions=total, traces_validated_against_impl=total,
                validator_evaluations=n_e, caller_cases=n_c, history_cases=n_h, distinct_validator_outcomes=reasons,
                distinct_outcome_classes=len(ocs), exhaustive=True,
                bound=f'codes {"0..255" if tier == "thorough" else "0..12,0x55,0x80,0x83,0xFF"} x read/write/write-multi x '
@@ -301,6 +306,11 @@ def run(tier, seed, rep):
 
 
 def replay(r):
+    if r.get('part') == 'session':
+        from .. import sessions
+        out = sessions.replay(r)
+        out['violations'] = [m for m in out['violations'] if m[0] == 'C08']
+        return out
     if r['part'] == 'caller':
         from ..findings import Report
         rp = Report('C08')
